@@ -59,6 +59,16 @@ def _conj_in_chain(t: ast.Call) -> bool:
 
 
 def hermitian_idiom(model: Model, R: RuleResult, files: Set[str], exceptions: Dict[Tuple[str, str], str]):
+    # the dense operator's four products are decided semantically (index notation) - here, under this rule's id - and then exempt from the lint
+    if "xitorch/_core/linop.py" in files:
+        from .linopalg import matrix_products
+        decided = matrix_products(model, R)
+        exceptions = dict(exceptions)
+        exceptions.update({("xitorch/_core/linop.py", q): "decided in index notation" for q in decided})
+    _hermitian_idiom(model, R, files, exceptions)
+
+
+def _hermitian_idiom(model: Model, R: RuleResult, files: Set[str], exceptions: Dict[Tuple[str, str], str]):
     """every last-two-axes transpose in `files` is conjugated in the same chain (or listed in exceptions
     keyed by (relpath, function qualname))"""
     n = 0
